@@ -1456,8 +1456,16 @@ class CalendarDateRange(Range):
         if allow_None and val is None:
             return
 
+        if not isinstance(val, tuple):
+            raise ValueError(
+                f"{_validate_error_prefix(self)} only takes a tuple value, "
+                f"not {type(val)}."
+            )
+
         for n in val:
-            if not isinstance(n, dt.date):
+            # (calendar dates, as for CalendarDate: a datetime is a date
+            # subclass but carries a time of day)
+            if not isinstance(n, dt.date) or isinstance(n, dt.datetime):
                 raise ValueError(
                     f"{_validate_error_prefix(self)} only takes date types, "
                     f"not {val}."
